@@ -144,6 +144,11 @@ EXTRA = [
     ("twin-layers-free-name", "let x = 1; in let a = x; in let x = 2; in let a = x; in { foo = a; }\n", "foo", "2"),
     ("twin-layers-same-expr", 'let v = "1"; w = v; in let v = "1"; w = v; in { foo = w; }\n', "foo", '"1"'),
     ("twin-layer-on-nested-set", "let x = 1; in let a = x; in { n = let x = 2; in let a = x; in { foo = a; }; }\n", "n.foo", "2"),
+    # `inherit n;` inside a rec set takes n from the enclosing scope, not from the rec set itself
+    ("inherit-into-rec-from-let", 'let n = "D"; in rec { inherit n; x = n; }\n', "x", '"D"'),
+    ("inherit-into-rec-lookup", 'let n = "D"; in rec { inherit n; }\n', "n", '"D"'),
+    # the set the mapping API works on is reached through a name: the innermost enclosing let that binds it, also across a lambda
+    ("target-name-rebound-under-lambda", 'let args = { x = "OUTER"; }; in { pkgs }: let args = { x = "D"; }; in pkgs.mk args\n', "x", '"D"'),
     ("formal-default", '({ n ? "D" }: { x = n; }) { }\n', "x", '"D"'),
     ("formal-arg-over-default", '({ n ? "DEF" }: { x = n; }) { n = "D"; }\n', "x", '"D"'),
 ]
@@ -269,7 +274,14 @@ def run(tier, seed):
 
     lf = livefresh.run("C10", tier, seed)
     base = _base(n, skipped, tier, items, vio, t0, hist)
-    out = merge(base, lf)
+    # which set the CLI edits when the target is reached through a name is decided by the same scoping rules: the constructed
+    # reference documents of C11 (defining binding known by construction) belong here as well
+    from bounded import b_c11
+
+    refs = b_c11.run_single(tier, seed)
+    for v in refs["violations"]:
+        v["what"] = v["what"].replace("C11", "C10", 1)
+    out = merge(base, lf, refs)
     out["not_navigable"] = skipped
     out["registry_size_after_history"] = hist[1]
     return out
@@ -286,6 +298,10 @@ def _base(n, skipped, tier, items, vio, t0, hist):
 
 def replay(v):
     i = v["inputs"]
+    if "case" in i:
+        from bounded import b_c11
+
+        return b_c11.replay(v)
     if "ops" in i:
         from bounded import livefresh
 
